@@ -633,6 +633,20 @@ def c18_cases(tier, seed):
                     files[l][key] = S(Cp("b", V("v", fmt)), " ", V("other"))
             roles[(None, (key,))] = "formatter:%s" % name
         cases.append(Case(Project(default, locales, files, style=STYLES[(pi // per) % len(STYLES)]), "c18_formatters/%d" % (pi // per), roles=roles))
+    # one process, one locale, formatters that differ in exactly one option (the formatter cache must key on all of them)
+    def fm(name, *args):
+        return {"name": name, "args": list(args) if args else None}
+    pairs = {
+        "dt_a": fm("datetime"), "dt_b": fm("datetime", ("time_length", "medium")), "dt_c": fm("datetime", ("date_length", "full")),
+        "dt_d": fm("datetime", ("date_length", "full"), ("time_length", "medium")), "dt_e": fm("datetime", ("date_length", "short"), ("time_length", "medium")),
+        "d_a": fm("date"), "d_b": fm("date", ("date_length", "full")), "d_c": fm("date", ("date_length", "short")),
+        "t_a": fm("time"), "t_b": fm("time", ("time_length", "medium")),
+        "n_a": fm("number"), "n_b": fm("number", ("grouping_strategy", "never")), "n_c": fm("number", ("grouping_strategy", "always")),
+        "l_a": fm("list"), "l_b": fm("list", ("list_type", "and")), "l_c": fm("list", ("list_type", "and"), ("list_style", "short")), "l_d": fm("list", ("list_style", "short")),
+        "c_a": fm("currency"), "c_b": fm("currency", ("width", "narrow")), "c_c": fm("currency", ("currency_code", "EUR")), "c_d": fm("currency", ("width", "narrow"), ("currency_code", "EUR")),
+    }
+    files = {l: {k: S(l + " ", V("v", f)) for k, f in pairs.items()} for l in ("en", "fr", "en-GB")}
+    cases.insert(0, Case(Project("en", ["en", "fr", "en-GB"], files), "c18_cache/0", roles={"*": "formatter_cache"}))
     # same variable formatted two ways in one key, and formatted inside ranges / plurals
     files = {"en": {
         "two": S(V("n", {"name": "number", "args": None}), " / ", V("n", {"name": "number", "args": [("grouping_strategy", "never")]})),
